@@ -1,11 +1,11 @@
 """C03 — merge is a complete, ordered, non-destructive override."""
 import itertools
-import gens
+import gens, trees
 from gens import enc
 from checklib import Scenario
 
 RULE = ("pairs of objects built by setter sequences (any interleaving of group-less/A/B/C keys, re-opened sections, "
-        "group-less after grouped) or parsed from files (bare keys, NULL values, re-opened sections, duplicate keys), and the "
+        "group-less after grouped) or parsed from files (bare keys, NULL values, re-opened sections, duplicate keys) or handed back by a layered read, and the "
         "three kinds of empty object, merged in both roles; quick: random pairs, thorough: all pairs of entry lists up to "
         "length 3+3 over {group-less,A,B}x{x,y}; observations: every listing and getter of the result, dumps of both inputs "
         "before and after; non-trivial when both sides are non-empty and share a group; distinct by model output")
@@ -29,8 +29,27 @@ def build_by_file(rng, o, entries, tagv):
         lines.append(k if r < 0.1 else k + b"=" if r < 0.2 else k + b"=" + tagv + b"%d" % n)
     return [gens.parse_cmd(o, b"/m/f%d.conf" % o, b"\n".join(lines) + (b"\n" if lines else b""), b"=", b"#")]
 
+def build_by_layered_read(rng, o, entries, tagv):
+    """the object is what econf_readDirs hands back for a main file plus one drop-in (such results carry internal
+    flags of their own and are legal inputs of econf_mergeFiles like any other object)"""
+    half = len(entries) // 2
+    def text(es, t):
+        lines, cur = [], None
+        for n, (g, k) in enumerate(es):
+            if g != cur:
+                if g is None: continue
+                lines.append(b"[" + g + b"]"); cur = g
+            lines.append(k + b"=" + t + b"%d" % n)
+        return b"\n".join(lines) + (b"\n" if lines else b"")
+    d = b"/lay%d" % o
+    return [trees.fsdir(d), trees.fsdir(d + b"/m.conf.d"), trees.fsfile(d + b"/m.conf", text(entries[:half], tagv + b"m")),
+            trees.fsfile(d + b"/m.conf.d/1.conf", text(entries[half:], tagv + b"d")),
+            "readdirs %d %s %s %s x636f6e66 x3d x23" % (o, enc(d), enc(b"/nowhere%d" % o), enc(b"m"))]
+
 def pair_scenario(rng, eb, eo):
-    mk = lambda o, es, t: (build_by_setters if rng.random() < 0.6 else build_by_file)(rng, o, es, t)
+    def mk(o, es, t):
+        r = rng.random()
+        return (build_by_setters if r < 0.5 else build_by_file if r < 0.85 else build_by_layered_read)(rng, o, es, t)
     cmds = mk(0, eb, b"b") + mk(1, eo, b"o")
     obs = [False] * len(cmds)
     body = ["dump 0", "dump 1", "merge 2 0 1", "getall 2", "dump 2", "dump 0", "dump 1", "write 2"]
